@@ -17,7 +17,10 @@ BAD_LINES = ["add t0, t1", "addi a0, a0", "lw a0", "foo a0, a1", "mov a0, a1", "
              "addi a0, q7, 1", "li a0, 1 +", "% li a0, 1", "li a0, 1 é", "li a0 : 1", "add t0, t1, t2 \r",
              "\"stray string\"", "( a0 )", "'c'", ".bogus 3", ".globl main", "fence", "li a0, 'ab'",
              "li a0, \"s\"", "sw a0, 4(sp", "jal", "beq a0, a1", ".", "1abc:", "a0", "li a0, 0x",
-             ".asciz \"unterminated", "lw a0, 4(5)", "la a0, 7", ".align", "bne a0, a1, 9x"]
+             ".asciz \"unterminated", "lw a0, 4(5)", "la a0, 7", ".align", "bne a0, a1, 9x",
+             # literals with an invalid escape: closed, and running to the end of the line
+             ".string \"bad \\q escape\"", ".string \"bad \\q escape", ".asciz \"x\\u12", "li a0, '\\q'",
+             "li a0, '\\q", ".string \"tail \\", "li a0, '\\u00e9' x", ".ascii \"a\\x\" \"b"]
 
 
 def one_per_line(rng, n_lines):
